@@ -44,6 +44,8 @@ type C07Case struct {
 	Auth string `json:"auth,omitempty"`
 	// Chunked: ingress bodies are sent without a declared length
 	Chunked bool `json:"chunked,omitempty"`
+	// Tracing: observability.tracing is enabled (the handlers are wrapped, a tracer provider is installed)
+	Tracing bool `json:"tracing,omitempty"`
 }
 
 func c07Text(c C07Case) string {
@@ -52,6 +54,9 @@ func c07Text(c C07Case) string {
 	b.WriteString("pull_api {\n  listen localhost:0\n  auth token raw:pulltoken\n}\n")
 	b.WriteString("admin_api { listen 0.0.0.0:0 }\n")
 	fmt.Fprintf(&b, "defaults {\n  max_body %db\n  egress {\n    https_only off\n    dns_rebind_protection off\n  }\n  deliver {\n    retry exponential max 8 base 1ms cap 2ms jitter 0\n    timeout 2s\n  }\n}\n", c.MaxBody)
+	if c.Tracing {
+		b.WriteString("observability {\n  tracing {\n    enabled on\n    collector \"http://127.0.0.1:1/v1/traces\"\n    insecure on\n    timeout \"100ms\"\n  }\n}\n")
+	}
 	auth := ""
 	if c.Auth == "hmac" {
 		auth = "  auth hmac raw:c07-secret\n"
@@ -143,8 +148,8 @@ func (rt *recordingRT) count() int {
 
 var (
 	c07HdrNames = []string{"X-Event", "x-event", "X-EVENT", "Content-Type", "X-Long", "Authorization", "authorization", "AUTHORIZATION",
-		"Proxy-Authorization", "proxy-authorization", "Cookie", "COOKIE", "X-Tab", "X-Utf8", "User-Agent", "X-Empty", "Cookie2", "X-Authorization"}
-	c07HdrVals = []string{"push", "a,b", "a, b", "", "tab\there", "héllo wörld ✓", "Bearer secret", "k=v; k2=v2", strings.Repeat("v", 300), "  padded  ", "\"quoted\"", "a;b=c"}
+		"Proxy-Authorization", "proxy-authorization", "Cookie", "COOKIE", "X-Tab", "X-Utf8", "User-Agent", "X-Empty", "Cookie2", "X-Authorization", "Traceparent", "tracestate"}
+	c07HdrVals = []string{"push", "a,b", "a, b", "", "tab\there", "héllo wörld ✓", "Bearer secret", "k=v; k2=v2", strings.Repeat("v", 300), "  padded  ", "\"quoted\"", "a;b=c", "00-4bf92f3577b34da6a3ce929d0e0e4736-00f067aa0ba902b7-01"}
 )
 
 func genBody(t *rapid.T, maxBody int) []byte {
@@ -192,6 +197,7 @@ func genC07Case() *rapid.Generator[C07Case] {
 			c.Auth = rapid.SampledFrom([]string{"", "", "", "forward", "forward-copy", "hmac", "hmac"}).Draw(t, "auth")
 			c.Chunked = rapid.IntRange(0, 3).Draw(t, "chunked") == 0
 		}
+		c.Tracing = rapid.IntRange(0, 3).Draw(t, "tracing") == 0
 		c.Redeliver = rapid.SampledFrom([]int{0, 0, 1, 2, 3}).Draw(t, "redeliver")
 		nm := rapid.SampledFrom([]int{0, 0, 1, 2}).Draw(t, "nmore")
 		for i := 0; i < nm; i++ {
